@@ -55,6 +55,58 @@ def classify(body):
     return kind, mutex
 
 
+def methods_any(src):
+    """[(class, name, body)] of every out-of-line member function of a file"""
+    res = []
+    for m in re.finditer(r"^[A-Za-z_][\w\s\*&:<>,]*?\b(\w+)::(~?\w+)\s*\([^;{]*\)\s*(?:const\s*)?(?::[^{;]*)?\{", src, re.M):
+        i = m.end() - 1
+        depth, j = 0, i
+        while j < len(src):
+            if src[j] == "{": depth += 1
+            elif src[j] == "}":
+                depth -= 1
+                if depth == 0: break
+            j += 1
+        res.append((m.group(1), m.group(2), src[i + 1:j]))
+    return res
+
+
+def held_regions(body):
+    """[(mutex, text that runs under the lock)]: from a MutexLocker declaration to the end of the block it is declared in"""
+    out = []
+    for m in re.finditer(r"MutexLocker\s+\w+\s*\(\s*([\w\->\.]+)\s*\)\s*;", body):
+        depth, j = 0, m.end()
+        while j < len(body):
+            if body[j] == "{": depth += 1
+            elif body[j] == "}":
+                if depth == 0: break
+                depth -= 1
+            j += 1
+        out.append((m.group(1), body[m.end():j]))
+    return out
+
+
+def relocks(repo):
+    """(caller, callee, mutex): `caller` calls `callee` (same class, unqualified or through `this`) inside a region it holds `mutex` in, and `callee` takes `mutex` somewhere
+    in its body.  The library's mutexes are not recursive: such a call is a self-deadlock unless the callee's locker sits in a branch that call does not take."""
+    import glob
+    rows, nreg = [], 0
+    for path in sorted(glob.glob(os.path.join(repo, "src", "lib", "**", "*.cpp"), recursive=True)):
+        if "/test/" in path: continue
+        src = strip(open(path, encoding="latin1").read())
+        if "MutexLocker" not in src: continue
+        ms = methods_any(src)
+        takes = {}
+        for c, n, b in ms:
+            for mu, _ in held_regions(b): takes.setdefault((c, n), set()).add(mu)
+        for c, n, b in ms:
+            for mu, region in held_regions(b):
+                nreg += 1
+                for g in set(re.findall(r"(?<![\w>\.:])(?:this\s*->\s*)?(\w+)\s*\(", region)):
+                    if mu in takes.get((c, g), ()): rows.append(("%s::%s" % (c, n), "%s::%s" % (c, g), mu))
+    return sorted(set(rows)), nreg
+
+
 def main():
     repo, outdir = sys.argv[1], sys.argv[2]
     rows = []
@@ -73,6 +125,11 @@ def main():
          "   (method, how it takes its mutex: first / later / scoped / none, which mutex) -/", "namespace Shm.Gen", "",
          "def lockFacts : List (String × String × String) := ["]
     L.append(",\n".join('  ("%s", "%s", "%s")' % r for r in sorted(rows)) + "]")
+    rl, nreg = relocks(repo)
+    L += ["", "/-- (caller, callee, mutex): inside one of the %d regions of src/lib that run under a MutexLocker, `caller` calls a method of its own class that takes the same" % nreg,
+          "    (non-recursive) mutex somewhere in its body -/",
+          "def relockCalls : List (String × String × String) := [" + ", ".join('("%s", "%s", "%s")' % r for r in rl) + "]",
+          "def lockRegions : Nat := %d" % nreg]
     L += ["", "/-- the whole method runs under its class's mutex -/",
           "def locksFirst (m : String) : Bool := lockFacts.any fun e => e.1 == m && e.2.1 == \"first\"", "", "end Shm.Gen", ""]
     open(os.path.join(outdir, "LockFacts.lean"), "w").write("\n".join(L))
